@@ -224,6 +224,7 @@ func c07GrammarCase(t *rapid.T) {
 			cl.logf("block stats order=%v count=%v sum=%v min=%v max=%v", parts, c, su, lo, hi)
 		}
 		blocksWritten := 0
+		afterManyUnits, lastManyN := false, 0
 		for bi := 0; bi <= nblocks; bi++ {
 			if mappingAt[bi] {
 				w.Mapping(sub, gamma, offset)
@@ -239,7 +240,57 @@ func c07GrammarCase(t *rapid.T) {
 			if bi == nblocks {
 				break
 			}
-			switch rapid.SampledFrom([]string{"zero", "dc", "dc", "d", "d", "c", "c", "c", "empty"}).Draw(t, "blockkind") {
+			blockKinds := []string{"zero", "dc", "dc", "d", "d", "c", "c", "c", "empty", "manyunits"}
+			if afterManyUnits {
+				// what follows a long run of scattered unit-weight bins matters most when it is an index-delta block (also an empty one)
+				blockKinds = []string{"d", "d", "d", "empty", "c", "manyunits"}
+			}
+			bk := rapid.SampledFrom(blockKinds).Draw(t, "blockkind")
+			cl.labelIf(afterManyUnits && lastManyN >= 97 && bk == "d", "deltas-block-after-many-unit-bins")
+			afterManyUnits = bk == "manyunits"
+			switch bk {
+			case "manyunits":
+				// 50..300 bins of weight exactly 1 on scattered indexes (fewer than a page's worth per page): a consumer that
+				// buffers unit weights holds them all, past its compaction thresholds, when the next block arrives
+				neg := rapid.Bool().Draw(t, "neg")
+				n := rapid.IntRange(50, 300).Draw(t, "nunits")
+				if !bud.Fits(total + float64(n)) {
+					n = 0
+				}
+				total += float64(n)
+				s := 0
+				if neg {
+					s = 1
+				}
+				if rapid.Bool().Draw(t, "unitscontiguous") {
+					stride := int64(rapid.SampledFrom([]int{33, 34, 40, 64, -33, 100}).Draw(t, "unitstride"))
+					for int64(n-1)*abs64(stride) > int64(2*span+ext) && n > 1 {
+						n--
+					}
+					first := int64(base - span)
+					if stride < 0 {
+						first = int64(base + span + ext)
+					}
+					counts := make([]float64, n)
+					for i := range counts {
+						counts[i] = 1
+						seenIdx[s][first+int64(i)*stride] = true
+					}
+					w.Contiguous(neg, first, stride, counts)
+					layouts[refdec.LayoutContiguous] = true
+					nonUnitStride = true
+					cl.logf("block contiguous neg=%v first=%d stride=%d n=%d unit counts", neg, first, stride, n)
+				} else {
+					bins := make([]refdec.BinAdd, n)
+					for i := range bins {
+						bins[i] = refdec.BinAdd{Index: idx(t), Count: 1}
+						seenIdx[s][bins[i].Index] = true
+					}
+					w.DeltasCounts(neg, bins)
+					layouts[refdec.LayoutDeltasCounts] = true
+					cl.logf("block deltas+counts neg=%v n=%d unit counts on scattered indexes", neg, n)
+				}
+				lastManyN = n
 			case "zero":
 				c := cnt(t)
 				w.Zero(c)
